@@ -46,7 +46,9 @@ def opOracle (op : String) (c : Ctx) (x y : Dec) (iarg : Int) (o : Out) : List (
     if !(wfDec x) || e < -100000 || e > 100000 then [] else
     if x.exp - e > 100000 then
       -- rescaling by more than the package's exponent limit: a non-zero coefficient would need more than
-      -- 100001 digits, beyond every admissible precision; a zero coefficient needs one digit (finding F6)
+      -- 100001 digits, beyond every admissible precision; a zero coefficient needs one digit and is returned at
+      -- the requested exponent with no condition (finding F6, repaired: `quantize` no longer refuses the distance
+      -- before looking at the coefficient; C09_quantize_zero_far / C09_quantize_far_nonzero)
       if c.prec > 100000 then [] else
       let etiny : Int := c.emin - (c.prec : Int) + 1
       if x.coeff != 0 || e < etiny || e > c.emax then
@@ -54,7 +56,7 @@ def opOracle (op : String) (c : Ctx) (x y : Dec) (iarg : Int) (o : Out) : List (
           [("C09", "expected NaN with InvalidOperation (rescaled coefficient beyond the precision)"),
            ("C02", "InvalidOperation, and nothing else, must be raised when the rescaled coefficient needs more than Precision digits")])
       else
-        (if o.d == { form := .finite, neg := x.neg, exp := e, coeff := 0 } && !o.fl.invalidOp then [] else
+        (if o.d == { form := .finite, neg := x.neg, exp := e, coeff := 0 } && o.fl == {} then [] else
           [("C09", s!"zero-far-rescale: expected a zero at exponent {e}")])
     else
     let r := quantSpec c x e
@@ -86,9 +88,13 @@ def opOracle (op : String) (c : Ctx) (x y : Dec) (iarg : Int) (o : Out) : List (
     if ndigits v.natAbs > c.prec then [] else
     -- an integer beyond MaxExponent cannot be returned as a finite value of the context (C07): overflow
     if (ndigits v.natAbs : Int) - 1 > c.emax then [] else
-    if o.err == .none && o.fl == {} && o.d.form == .finite && o.d.exp == 0 &&
+    (if o.err == .none && o.fl == {} && o.d.form == .finite && o.d.exp == 0 &&
        (if o.d.neg then -(o.d.coeff : Int) else (o.d.coeff : Int)) == v then []
-    else [("C09", s!"expected {v}")]
+    else [("C09", s!"expected {v}")]) ++
+    -- sign of zero (C08_ceil_zero_sign / C08_floor_zero_sign): a zero result carries the operand's sign, as
+    -- round-to-integral under RoundCeiling / RoundFloor does (Ceil(-0.05) = -0)
+    (if o.err == .none && o.d.form == .finite && o.d.coeff == 0 && v == 0 && o.d.neg != x.neg then
+       [("C08", s!"zero result of {op} must carry the operand's sign")] else [])
   | "quoint" =>
     if y.form != .finite || y.coeff == 0 then [] else
     if x.exp - y.exp > 100000 || y.exp - x.exp > 100000 then [] else
